@@ -1,9 +1,14 @@
-"""C25 -- badly prepared atoms behave as absent: the permutation / data-flow clauses of emu-mps."""
-from contracts import mps_dataflow as D, mps_dataflow_sites as S
+"""C25 -- badly prepared atoms behave as absent: the permutation / data-flow clauses of emu-mps
+(which sites, drives and couplings the bad-atom filter removes)."""
+from contracts import frame_scan, mps_dataflow as D, mps_dataflow_sites as S
 
 ID = "C25"
 LEVEL = "proof"
 REPLAY = "replay/c25.py"
+
+
+def extra_checks(tier, seed, repo_root):
+    return frame_scan.run("C25", repo_root, attrs=("qubit_permutation", "pulser_data", "well_prepared_qubits_filter"))
 
 
 def build(reg):
@@ -12,6 +17,33 @@ def build(reg):
     M = D.IMPL
     return dict(
         targets=[f"{M}:MPSBackendImpl.init_dark_qubits", f"{M}:MPSBackendImpl.init_dark_qubits[N=4]",
-                 f"{M}:MPSBackendImpl._get_interaction_matrix[filter]"],
-        not_decided=[], trusted=[], bounded=[],
+                 f"{M}:MPSBackendImpl._get_interaction_matrix[filter]",
+                 f"{M}:MPSBackendImpl.fill_results[filter]"],
+        explanation=(
+            "Ghost convention: MPS site k holds register atom perm[k]; the filter is one Boolean per SITE.  "
+            "Proved for all N, T, permutations and bad-atom masks: filter_site[k] == well_prepared[perm[k]] "
+            "(no filter without state-preparation error); qubit_count is the number of well-prepared atoms; "
+            "the reduced drives are, in order, those of the surviving sites, i.e. of well-prepared atoms only, "
+            "each with its own register drive; the reduced interaction matrix is J[atom(a), atom(b)] over the "
+            "surviving sites; fill_results pads state and Hamiltonian with this very (per-site) filter."),
+        not_decided=[
+            "that the remaining atoms evolve numerically as in the sequence without the bad atoms (follows from the "
+            "reduced drives/couplings proved here only modulo the propagator, C02)",
+            "extended_mps_factors / extended_mpo_factors / get_extended_site_index themselves (|g> and identity "
+            "factors exactly at the False positions, matching bond dimensions): not reached in this work package; "
+            "fill_results is proved to hand them the per-site filter",
+            "all-but-one bad atoms: MPS.make(1) raises ValueError although progress() has a one-qubit branch "
+            "(DESIGN section 6, defect 7, second half) and all atoms bad: not a permutation clause, not covered here",
+            "emu-sv init_dark_qubits (zeroed drive columns and interaction rows/columns): not covered here",
+            "leakage (dim = 3): eigenstates are fixed to ['r', 'g'] in these contracts",
+        ],
+        trusted=[
+            "torch semantics of a read through a 1-d boolean mask: gather through the increasing enumeration of the "
+            "True positions (pyvc/maskidx.py, A3)",
+            "well_prepared_qubits_filter is written only by init_dark_qubits (frame scan)",
+            "the drives entering init_dark_qubits are in site order (C02: __init__[drives])",
+        ],
+        bounded=["fill_results: two observables, each due or not (4 cases)",
+                 "init_dark_qubits[N=4] repeats the filter clause at N = 4 only to obtain a concrete counter-model "
+                 "on a broken tree"],
     )
